@@ -25,9 +25,11 @@ theorem closeStep_flag (s s1 : SSys) (k : Bool) (c c' : CPc) (h : closeStep s k 
   cases c <;> simp only [closeStep] at h
   · cases hf : s.closedFlag <;> simp [hf] at h <;> obtain ⟨rfl, rfl⟩ := h <;> simp [hf]
   · simp at h; obtain ⟨rfl, rfl⟩ := h; simp
-  · cases hf : s.suspendedFlag <;> simp [hf] at h <;> obtain ⟨rfl, rfl⟩ := h
-    · simp [afterGuard]; cases s.da1First <;> simp
-    · cases k <;> simp [afterSuspend]
+  · split at h
+    · simp at h
+    · cases hf : s.suspendedFlag <;> simp [hf] at h <;> obtain ⟨rfl, rfl⟩ := h
+      · simp [afterGuard]; cases s.da1First <;> simp
+      · cases k <;> simp [afterSuspend]
   · split at h
     · simp at h; obtain ⟨rfl, rfl⟩ := h; simp [afterSignal]; cases s.da1First <;> simp
     · simp at h
